@@ -6,7 +6,7 @@ on the current tick versus the range with the statement's price pairs per case, 
 by each handler (increase / new range positive, decrease / existing range negative); the
 caller-limit comparisons (token max on the fee-included deposit, token min on the
 fee-excluded withdrawal) with the right side and before any transfer; the floor divisions
-and case split of the max-liquidity estimate.
+and case split of the max-liquidity estimate with the price interval of each arm.
 Not decided: exactness, the one-unit loss bound, "largest L that fits"."""
 from analysis import cfg, atoms as A, preach, pino
 from analysis.ir import callee_path, AnchorMissing
